@@ -12,14 +12,16 @@ TRUSTED_BASE = ["harness/detsched.py: baton scheduler, cooperative replacements 
 
 
 def run(ctx):
-    engine_corr.campaign(ctx, {"C01"})
+    # model-free scenarios through the public API first (they do not depend on the engine instrumentation)
     import planlevel
     import prune_corr
+    concurrent_runs(ctx)
+    registry_order(ctx)
     planlevel.plan_campaign(ctx, {"C01"}, n_quick=100, n_thorough=2000)
+    engine_corr.campaign(ctx, {"C01"})
     import translate_prune
     translate_prune.check(ctx)       # pruning.py's literal elision translated to Gallina and linked to Cache/Prune.v by a theorem
     prune_corr.run_prune(ctx)       # plan -> run graph: dependencies between surviving nodes (Cache/Prune.v)
-    registry_order(ctx)
 
 
 def registry_order(ctx):
@@ -72,3 +74,82 @@ def registry_order(ctx):
             elif op == "delete" and st:
                 s_ = rng.choice(st)
                 w.stores[s_].v = w.stores[s_].t = None
+
+
+def concurrent_runs(ctx):
+    """Two user threads run ONE plan at the same time (their executions overlap inside the first calls): within each run a
+    call starts only after that run's own executions of its dependencies have finished - the engine's bookkeeping belongs to
+    the run, not to the plan or the process."""
+    import threading
+    import time
+    uj = core.use_repo()
+    shapes = {
+        "join": [("a", []), ("b", []), ("c", ["a", "b"])],
+        "join-chain": [("a", []), ("b", []), ("c", ["a", "b"]), ("d", ["c", "a"])],
+        "diamond": [("a", []), ("b", ["a"]), ("c", ["a"]), ("d", ["b", "c"])],
+    }
+    for name, shape in shapes.items():
+        for workers in (1, 2, 4):
+            for scheduler in (None, "random"):
+                gate = threading.Barrier(2, timeout=5)
+                lock = threading.Lock()
+                events = []
+                first = shape[0][0]
+
+                def mk(nm):
+                    def f(*args):
+                        if nm == first:
+                            try:
+                                gate.wait()          # both runs are executing their first call now
+                            except threading.BrokenBarrierError:
+                                pass
+                        time.sleep(0.01 if nm == "b" else 0.002)
+                        return nm
+                    f.__name__ = nm
+                    return f
+                plan, nodes = uj.Plan(), {}
+                for nm, args in shape:
+                    nodes[nm] = plan.call(mk(nm), *[nodes[a] for a in args])
+
+                def tagging_retry(run_id):
+                    def retry(fn):
+                        def wrapper(*a, **k):
+                            nm = getattr(fn, "__name__", "?")
+                            with lock:
+                                events.append((run_id, "start", nm))
+                            try:
+                                return fn(*a, **k)
+                            finally:
+                                with lock:
+                                    events.append((run_id, "end", nm))
+                        return wrapper
+                    return retry
+                results = {}
+
+                def runner(k):
+                    try:
+                        results[k] = ("ok", uj.run(plan, output=nodes[shape[-1][0]], max_workers=workers, scheduler=scheduler, progress=None, retry=tagging_retry(k)))
+                    except BaseException as e:      # noqa
+                        results[k] = ("raised", "%s: %r" % (type(e).__name__, getattr(e, "__cause__", None)))
+                ths = [threading.Thread(target=runner, args=(k,), daemon=True) for k in (0, 1)]
+                for t in ths:
+                    t.start()
+                for t in ths:
+                    t.join(30)
+                ctx.case(("concurrent-runs", name, workers, scheduler))
+                rep = {"shape": name, "max_workers": workers, "scheduler": scheduler, "events": [list(e) for e in events[:80]], "results": {k: repr(v) for k, v in results.items()}}
+                deps = dict(shape)
+                for k in (0, 1):
+                    if results.get(k) != ("ok", shape[-1][0]):
+                        ctx.fail("concurrent-runs:result", "two threads running one plan at once: run %d %r" % (k, results.get(k, "did not return")), rep)
+                        break
+                    ended = set()
+                    for run_id, kind, nm in events:
+                        if run_id != k or nm not in deps:
+                            continue
+                        if kind == "end":
+                            ended.add(nm)
+                        elif [d for d in deps[nm] if d not in ended]:
+                            ctx.fail("concurrent-runs:start-before-dependency", "two threads running one plan at once: in run %d call %s started before its "
+                                     "dependencies %r had finished in that run" % (k, nm, [d for d in deps[nm] if d not in ended]), rep)
+                            break
